@@ -26,6 +26,10 @@ type c11Case struct {
 	SchedSeed uint64         `json:"sched_seed"`
 	Strat     simrt.Strategy `json:"strat"`
 	GenSeed   uint64         `json:"gen_seed"`
+	// Stops: the connection owns this many extra transceivers and one more task stops them one by
+	// one while the Create* calls run (Stop does not take the connection's lock: an offer that
+	// finds its transceivers changed under it is recomputed)
+	Stops int `json:"stops,omitempty"`
 }
 
 func c11Gen(seed uint64, idx, total int, tier string) any {
@@ -50,6 +54,9 @@ func c11Gen(seed uint64, idx, total int, tier string) any {
 			ops = append(ops, "offer", "offer")
 		}
 		c.Tasks = append(c.Tasks, ops)
+	}
+	if nt > 1 || r.Bool(0.5) {
+		c.Stops = vfPick(r, []int{0, 0, 2, 3})
 	}
 	return c
 }
@@ -97,6 +104,12 @@ func c11Run(t *testing.T, cj []byte, res *vfResult) {
 			res.Verdict, res.Detail = "error", err.Error()
 			return
 		}
+		var extra []*RTPTransceiver
+		for i := 0; i < c.Stops && i < 4; i++ {
+			if tr, e := pc.AddTransceiverFromKind([]RTPCodecType{RTPCodecTypeVideo, RTPCodecTypeAudio}[i%2], RTPTransceiverInit{Direction: RTPTransceiverDirectionRecvonly}); e == nil {
+				extra = append(extra, tr)
+			}
+		}
 		fs := sgNewForeignSession(vfNewRand(c.GenSeed, "fs"))
 		switch c.Setup {
 		case "remote-offer":
@@ -121,7 +134,7 @@ func c11Run(t *testing.T, cj []byte, res *vfResult) {
 			po := vfParseSDP(off.SDP)
 			calls = append(calls, &c11Call{task: -1, call: tick(), ret: tick(), kind: "offer", sessID: po.SessID, ver: po.SessVer})
 		}
-		s := simrt.NewSched(c.SchedSeed, c.Strat, "peerconnection.go", "sdp.go")
+		s := simrt.NewSched(c.SchedSeed, c.Strat, "peerconnection.go", "sdp.go", "harness:")
 		for ti, ops := range c.Tasks {
 			ti, ops := ti, ops
 			s.Go(fmt.Sprintf("t%d", ti), func() {
@@ -165,6 +178,15 @@ func c11Run(t *testing.T, cj []byte, res *vfResult) {
 					}
 					calls = append(calls, cl)
 					mu.Unlock()
+				}
+			})
+		}
+		if len(extra) > 0 {
+			s.Go("stopper", func() {
+				for _, tr := range extra {
+					simrt.Yield("harness:stop:1")
+					_ = tr.Stop()
+					simrt.Yield("harness:stop:2")
 				}
 			})
 		}
